@@ -177,6 +177,9 @@ func (fv *FuncVC) define(v ssa.Value, t Term) {
 }
 
 func (fv *FuncVC) instr(in ssa.Instruction) {
+	if p := in.Pos(); p.IsValid() {
+		fv.curPos = p
+	}
 	switch x := in.(type) {
 	case *ssa.DebugRef:
 	case *ssa.Alloc:
